@@ -124,6 +124,7 @@ type Suite struct {
 func NewSuite(prop string) *Suite {
 	s := &Suite{
 		Prop:      prop,
+		HangLimit: 120 * time.Second,
 		start:     time.Now(),
 		nontriv:   map[uint64]struct{}{},
 		states:    map[uint64]struct{}{},
